@@ -12,6 +12,27 @@
 #include "vio.hpp"
 using namespace AIToolbox;
 
+
+// A user-defined POMDP model: probability queries only (IsModel but not IsModelEigen), wrapping dense tables.
+class GenericPOMDP {
+    public:
+        GenericPOMDP(const POMDP::Model<MDP::Model> & m) : m_(m) {}
+        size_t getS() const { return m_.getS(); }
+        size_t getA() const { return m_.getA(); }
+        size_t getO() const { return m_.getO(); }
+        double getDiscount() const { return m_.getDiscount(); }
+        bool isTerminal(size_t s) const { return m_.isTerminal(s); }
+        double getTransitionProbability(size_t s, size_t a, size_t s1) const { return m_.getTransitionProbability(s, a, s1); }
+        double getExpectedReward(size_t s, size_t a, size_t s1) const { return m_.getExpectedReward(s, a, s1); }
+        double getObservationProbability(size_t s1, size_t a, size_t o) const { return m_.getObservationProbability(s1, a, o); }
+        std::tuple<size_t, double> sampleSR(size_t s, size_t a) const { return m_.sampleSR(s, a); }
+        std::tuple<size_t, size_t, double> sampleSOR(size_t s, size_t a) const { return m_.sampleSOR(s, a); }
+    private:
+        const POMDP::Model<MDP::Model> & m_;
+};
+static_assert(POMDP::IsModel<GenericPOMDP>);
+static_assert(!POMDP::IsModelEigen<GenericPOMDP>);
+
 struct Tables { size_t S, A, O; double g; DumbMatrix3D T, R, Ob; };
 
 static Tables readPomdp(vio::Cursor & c) {
@@ -50,6 +71,7 @@ int main(int argc, char ** argv) {
             Tables t = readPomdp(c);
             POMDP::Model<MDP::Model> dense(t.O, t.Ob, t.S, t.A, t.T, t.R, t.g);
             if (repr == "dense") solve(alg, dense, h, o);
+            else if (repr == "generic") { GenericPOMDP g(dense); solve(alg, g, h, o); }
             else { POMDP::SparseModel<MDP::SparseModel> sp(dense); solve(alg, sp, h, o); }
         } else if (kind == "rtbss") {   // rtbss <dense|sparse> <h> <maxR> <pomdp> <belief>
             const std::string repr = c.next(); unsigned h = c.nextSize(); double maxR = c.nextDouble();
@@ -57,6 +79,7 @@ int main(int argc, char ** argv) {
             auto bv = c.nextDoubles(); POMDP::Belief b(bv.size()); for (size_t i = 0; i < bv.size(); ++i) b[i] = bv[i];
             POMDP::Model<MDP::Model> dense(t.O, t.Ob, t.S, t.A, t.T, t.R, t.g);
             if (repr == "dense") { POMDP::RTBSS s(dense, maxR); auto [a, v] = s.sampleAction(b, h); o << a << v; }
+            else if (repr == "generic") { GenericPOMDP g(dense); POMDP::RTBSS s(g, maxR); auto [a, v] = s.sampleAction(b, h); o << a << v; }
             else { POMDP::SparseModel<MDP::SparseModel> sp(dense); POMDP::RTBSS s(sp, maxR); auto [a, v] = s.sampleAction(b, h); o << a << v; }
         } else throw std::logic_error("unknown case kind " + kind);
     });
